@@ -990,7 +990,10 @@ pub fn c10(rec: &RunRecord) -> Vec<Violation> {
                 } else {
                     for (i, got) in ttls.iter().enumerate() {
                         let ttl = lo + i as u8;
-                        if probed[ttl as usize] && *got != ttl {
+                        // every ttl between the lowest probed and the reported length was probed
+                        // (probes go out consecutively from first-ttl), so every entry carries
+                        // its own ttl; an entry still at its initial 0 is a gap in the run
+                        if *got != ttl {
                             v.push(Violation::new("C10", "c10.hop-ttl", format!("round {k}: hop at position {i} carries ttl {got}, expected {ttl}")));
                             break;
                         }
@@ -1585,10 +1588,14 @@ pub fn c07(rec: &RunRecord) -> Vec<Violation> {
             let cur_end = u32::from(f) + attempts.len() as u32;
             let overlap = u32::from(f) < prev_end && u32::from(pf) < cur_end;
             if overlap {
+                // the restart was due (the preceding round had run past the regime's limit):
+                // the open finding; a restart before the limit is something else
+                let limit = if t.proto == Proto::Udp && t.strat == Strat::Dublin && t.v6 { u32::from(t.initial_seq) + 512 } else { 65_023 };
+                let sig = if prev_end >= limit { "c07.wrap-overlap".to_string() } else { format!("c07.early-restart-overlap.{:?}", t.proto) };
                 // everything else that goes wrong in such a run is a consequence
                 return vec![Violation::new(
                     "C07",
-                    "c07.wrap-overlap",
+                    sig,
                     format!(
                         "round {k} issues sequences {f}..{cur_end} although the preceding round used {pf}..{prev_end}: a late response to the preceding round is valid in this one",
                     ),
